@@ -61,6 +61,12 @@ def _tle_grid(tier, rng):
     es = [0.0, 1e-5, 1e-3, 0.1, 0.7]
     ns = [1.0, 2.0, 11.0, 14.0, 15.5, 16.4]
     bs = [0.0, 1e-5, -1e-5, 1e-3]
+    # a deterministic block first: every eccentricity regime of the near-Earth theory (exactly circular, below / at / above the thresholds 1e-6 and 1e-4 at which terms are
+    # switched, ordinary, high) x drag {moderate, strong, negative} on two near-Earth orbits -- the seeded subset below rarely combined a tiny eccentricity with a strong drag
+    for (i, n) in ((51.6, 15.5), (98.0, 14.2)):
+        for e in (0.0, 5e-7, 1e-6, 1.1e-6, 1e-5, 8.12e-5, 1e-4, 1.1e-4, 1e-3, 0.01):
+            for b in (1e-4, 1e-3, -5e-4):
+                yield {"i": i, "e": e, "n": n, "bstar": b, "raan": 24.5 + 100 * e, "argp": 309.8, "M": 101.7 + 3000 * abs(b), "epoch": 2}
     combos = [(i, e, n, b) for i in incs for e in es for n in ns for b in bs]
     rng.shuffle(combos)
     want = 60 if tier == "quick" else 600
